@@ -418,14 +418,30 @@ def dominating_atoms(f, bid):
                     out.extend(dominating_atoms(f, tb))
                 finally:
                     c["_busy"].discard(tb)
-                # `flag = (0 == x)`: the flag is set only if the comparison held where it was stored
-                rj = ex.skip(f, tbi[1])
-                re_ = f.exprs[rj]
-                while re_["k"] == "cast" and re_.get("c"):
-                    rj = ex.skip(f, re_["c"][0])
+                # `flag = (0 == x)`: the flag is set only if the comparison held where it was stored;
+                # `flag2 = flag`: a copy of another such flag (the result of an inlined helper)
+                cur_tb, cur_rhs = tb, tbi[1]
+                for _hop in range(4):
+                    rj = ex.skip(f, cur_rhs)
                     re_ = f.exprs[rj]
-                if (re_["k"] == "bin" and re_["op"] in ("<", "<=", ">", ">=", "==", "!=", "&&")) or (re_["k"] == "un" and re_["op"] == "!"):
-                    out.extend(atoms_of(f, rj, True, tb, None))
+                    while re_["k"] == "cast" and re_.get("c"):
+                        rj = ex.skip(f, re_["c"][0])
+                        re_ = f.exprs[rj]
+                    if (re_["k"] == "bin" and re_["op"] in ("<", "<=", ">", ">=", "==", "!=", "&&")) or (re_["k"] == "un" and re_["op"] == "!"):
+                        out.extend(atoms_of(f, rj, True, cur_tb, None))
+                        break
+                    if re_["k"] == "ref" and re_.get("dk") == "local":
+                        nxt = _const_flag_info(f, rj, True, cur_tb)
+                        if nxt is None or nxt[0] in c.get("_busy", ()):
+                            break
+                        c.setdefault("_busy", set()).add(nxt[0])
+                        try:
+                            out.extend(dominating_atoms(f, nxt[0]))
+                        finally:
+                            c["_busy"].discard(nxt[0])
+                        cur_tb, cur_rhs = nxt
+                        continue
+                    break
         elif isinstance(lab, tuple):
             L = Operand(f, cond)
             if lab[1] == lab[2]:
